@@ -201,7 +201,11 @@ func init() {
 	}
 	props["C01"] = &propDef{level: "exploration", rule: dmlRule, assume: dmlAssume, workers: 6, conc: 6,
 		nCases: func(r *vf.Run) int { return r.Pick(300, 6000) },
-		gen:    func(seed int64, idx int) *Case { return genCase(seed, idx, dmlOpts) },
+		gen: func(seed int64, idx int) *Case {
+			o := dmlOpts
+			o.reincarnate = idx%4 == 2
+			return genCase(seed, idx, o)
+		},
 		check: func(run *vf.Run, res *caseResult) {
 			vs := checkC01(res.rt, run)
 			for _, v := range vs {
@@ -218,7 +222,11 @@ func init() {
 		}}
 	props["C02"] = &propDef{level: "exploration", rule: dmlRule, assume: dmlAssume, workers: 6, conc: 6,
 		nCases: func(r *vf.Run) int { return r.Pick(300, 6000) },
-		gen:    func(seed int64, idx int) *Case { return genCase(seed, idx, dmlOpts) },
+		gen: func(seed int64, idx int) *Case {
+			o := dmlOpts
+			o.reincarnate = idx%4 == 2
+			return genCase(seed, idx, o)
+		},
 		check: func(run *vf.Run, res *caseResult) {
 			vs := checkC02(res.rt, run)
 			for _, v := range vs {
